@@ -21,7 +21,9 @@ Ret == /\ Is("ret") /\ l' = l + 1
        /\ bad' = bad
            \cup (IF Ev.ok /\ Ev.remote # Tgt THEN {<<"C05", "dialing a peer reported success with a link to a different peer", hi, level>>} ELSE {})
            \cup (IF Ev.ok /\ Ev.remote \notin seen THEN {<<"C03", "a link names an identity that never answered at the address", hi, level>>} ELSE {})
-           \cup (IF level = "ctl" /\ ~Ev.ok THEN {<<"C05", "the retrying dial gave up with an error", hi, level>>} ELSE {})
+           \cup (IF level = "ctl" /\ ~Ev.ok THEN {<<"C05", IF "again" \in DOMAIN Ev THEN "a second request for a link to the peer that is already linked at the address was never satisfied"
+                                                                ELSE "the retrying dial gave up with an error", hi, level>>} ELSE {})
+           \cup (IF ~Ev.ok /\ Ev.err = "" THEN {<<"C05", "the dial reported success without a link", hi, level>>} ELSE {})
        /\ UNCHANGED <<hi, level, owner, seen>>
 End == /\ Is("end") /\ l' = l + 1
        /\ bad' = bad \cup (IF level = "ctl" /\ owner = "X" /\ ~(dial = "done" /\ result = "X")
